@@ -64,6 +64,7 @@ type Harness struct {
 	ptrNode map[interface{}]*model.Node
 	rtypes  map[string]reflect.Type
 	renamed map[string]map[string]string // GraphQL type -> field -> Go field name bound with RegisterField
+	regID   int64                        // key of this harness in the hydration registry (0: not registered)
 	rootObj interface{}
 	hasAny  bool
 }
@@ -283,6 +284,35 @@ func (h *Harness) conv(v interface{}, owner *model.Node, nth int) interface{} {
 		if !accessor {
 			return items
 		}
+		if nth < 0 && owner.ID%3 == 1 && len(t) > 0 {
+			// a list of objects kept as a NAMED slice of a basic kind (keys) whose accessor hydrates each element: it must
+			// go through the ListResolver / AnyResolver accessors, never be flattened into its raw elements
+			allNodes := true
+			for _, e := range t {
+				if n, isN := e.(*model.Node); e != nil && (!isN || n == nil) {
+					allNodes = false
+				}
+			}
+			if allNodes {
+				hid := h.registryID()
+				if h.hasAny {
+					refs := make(AnyRefList, len(t))
+					for i, e := range t {
+						if e != nil {
+							refs[i] = fmt.Sprintf("%d:%d", hid, e.(*model.Node).ID)
+						}
+					}
+					return refs
+				}
+				refs := make(RefList, len(t))
+				for i, e := range t {
+					if e != nil {
+						refs[i] = fmt.Sprintf("%d:%d", hid, e.(*model.Node).ID)
+					}
+				}
+				return refs
+			}
+		}
 		if h.hasAny {
 			return &anyList{items: items, failAt: nth}
 		}
@@ -339,6 +369,62 @@ func (l *ifList) Nth(i int) interface{} {
 	return l.items[i]
 }
 
+// RefList is a list of objects stored as keys; it implements ggql.ListResolver and hydrates on access.
+type RefList []string
+
+// AnyRefList is the same for the AnyResolver (no methods: ggql has to hand it to AnyResolver.Len/Nth).
+type AnyRefList []string
+
+// The hydration registry maps the id inside a key to its harness. Only the most recent harnesses are kept (a case never
+// uses more than a handful at a time), so long runs do not accumulate them.
+var (
+	harnessRegMu sync.Mutex
+	harnessReg   = map[int64]*Harness{}
+	harnessRegID int64
+)
+
+const harnessRegKeep = 512
+
+func (h *Harness) registryID() int64 {
+	h.mu.Lock()
+	defer h.mu.Unlock()
+	if h.regID == 0 {
+		harnessRegMu.Lock()
+		harnessRegID++
+		h.regID = harnessRegID
+		harnessReg[h.regID] = h
+		delete(harnessReg, h.regID-harnessRegKeep)
+		harnessRegMu.Unlock()
+	}
+	return h.regID
+}
+
+func hydrate(ref string) interface{} {
+	if ref == "" {
+		return nil
+	}
+	var hid int64
+	var nid int
+	if _, err := fmt.Sscanf(ref, "%d:%d", &hid, &nid); err != nil {
+		return nil
+	}
+	harnessRegMu.Lock()
+	h := harnessReg[hid]
+	harnessRegMu.Unlock()
+	if h == nil {
+		return nil
+	}
+	if nid < 0 || nid >= len(h.G.Nodes) {
+		return nil
+	}
+	return h.obj(h.G.Nodes[nid])
+}
+
+func (l RefList) Len() int { return len(l) }
+func (l RefList) Nth(i int) interface{} {
+	return hydrate(l[i])
+}
+
 // ---------------------------------------------------------------- any strategy
 
 type anyNode struct{ n *model.Node }
@@ -372,6 +458,9 @@ func (a *anyRes) Len(list interface{}) int {
 	if l, isL := list.(*anyList); isL {
 		return len(l.items)
 	}
+	if l, isL := list.(AnyRefList); isL {
+		return len(l)
+	}
 	rv := reflect.ValueOf(list)
 	if rv.Kind() == reflect.Slice {
 		return rv.Len()
@@ -389,6 +478,9 @@ func (a *anyRes) Nth(list interface{}, i int) (interface{}, error) {
 			return nil, fmt.Errorf("%w in list accessor at index %d", ErrInjected, i)
 		}
 		return l.items[i], nil
+	}
+	if l, isL := list.(AnyRefList); isL {
+		return hydrate(l[i]), nil
 	}
 	rv := reflect.ValueOf(list)
 	if rv.Kind() == reflect.Slice && i < rv.Len() {
